@@ -12,7 +12,7 @@ From Coq Require Import ZArith Lia.
 Require Import Model.DvbDate Spec.DvbSpec Proofs.DvbDateProofs.
 Open Scope Z_scope.
 
-Lemma decode_float_sweep_below : all_range decode_float_ok 0 (mjd_lo - 1) = true.
+Lemma decode_float_sweep_below : decode_float_sweep_on 0 (mjd_lo - 1) = true.
 Proof. vm_cast_no_check (eq_refl true). Qed.
 
 Theorem C15_float_model_all_words : forall mjd, 0 <= mjd <= 65535 ->
@@ -21,7 +21,7 @@ Proof.
   intros mjd H.
   assert (E : DvbFloat.mjd_to_ymd_float mjd = dvb_ymd mjd).
   { destruct (Z_lt_le_dec mjd mjd_lo) as [Hlt|Hge].
-    - apply triple_eqb_eq, (all_range_spec _ _ _ decode_float_sweep_below mjd). lia.
+    - apply (decode_float_sweep_spec _ _ decode_float_sweep_below mjd). lia.
     - apply decode_float_int. unfold mjd_hi. lia. }
   split; [exact E|]. unfold DvbFloat.dvb_date_unix_float, dvb_date_unix. rewrite E. reflexivity.
 Qed.
